@@ -1,0 +1,14 @@
+//! Read-only verification hooks (feature `verif-hooks`).
+use super::CountMinSketch;
+use alloc::vec::Vec;
+
+impl CountMinSketch {
+    /// (rows, seeds, mask)
+    pub(crate) fn verif_dump(&self) -> (Vec<Vec<u8>>, Vec<u64>, u64) {
+        (
+            self.rows.iter().map(|r| r.verif_bytes()).collect(),
+            self.seeds.to_vec(),
+            self.mask,
+        )
+    }
+}
